@@ -343,12 +343,12 @@ M("c20-write-on-operand", "C20", [(PRE, """        pre = __class__._to_pregex(pr
             return self
 
         pattern = self._concat_conditional_group()""")], rule="R-WRITEONCE")
-M("c20-module-memo", "C20", [(PRE, "class _Type(_enum.Enum):", "_MEMO = {}\n\n\nclass _Type(_enum.Enum):"),
+M("benign-exact-memo-of-operand", "C20", [(PRE, "class _Type(_enum.Enum):", "_MEMO = {}\n\n\nclass _Type(_enum.Enum):"),
                              (PRE, """        if isinstance(pre, str):
             return Pregex(pre, escape=True)""", """        if isinstance(pre, str):
             if pre not in _MEMO:
                 _MEMO[pre] = Pregex(pre, escape=True)
-            return _MEMO[pre]""")], rule="R-NOSHARED")
+            return _MEMO[pre]""")], expect="silent")   # an exact memo (key = the only parameter) of an immutable value: the property still holds
 M("c20-table-mutated", "C20", [(PRE, """        return __class__.__groupping_rules[self.__type][0]""", """        __class__.__groupping_rules.setdefault(self.__type, (False, False, False))
         return __class__.__groupping_rules[self.__type][0]""")], rule="R-NOSHARED")
 M("c20-infix-append", "C20", [(ESS, """        if not isinstance(infix, list):
